@@ -27,6 +27,7 @@ func MapKeys[M ~map[K]V, K comparable, V any](m M, site int) []K {
 	}
 	if sim.race != nil {
 		sim.race.access(sim, uintptr(mapID(m)), 1, false, site, true)
+		sim.race.keepMap(mapID(m), m)
 	}
 	if sim.Cfg.ShuffleMaps && len(keys) > 1 {
 		sim.rep.Counters["map_ranges_shuffled"]++
@@ -97,6 +98,7 @@ func sortKeys[K comparable](keys []K) {
 func MapR[M ~map[K]V, K comparable, V any](m M, site int) M {
 	if sim := cur; sim != nil && sim.race != nil && m != nil && sim.running != nil {
 		sim.race.access(sim, uintptr(mapID(m)), 1, false, site, true)
+		sim.race.keepMap(mapID(m), m)
 	}
 	return m
 }
@@ -105,6 +107,7 @@ func MapR[M ~map[K]V, K comparable, V any](m M, site int) M {
 func MapW[M ~map[K]V, K comparable, V any](m M, site int) M {
 	if sim := cur; sim != nil && sim.race != nil && m != nil && sim.running != nil {
 		sim.race.access(sim, uintptr(mapID(m)), 1, true, site, true)
+		sim.race.keepMap(mapID(m), m)
 	}
 	return m
 }
